@@ -678,43 +678,114 @@ def module_class():
             _WORLD[0].calls.append({'f': 'K0', 'init': sm.init, 'attr': getattr(sm, 'attr', MISSING), 'ans': 'None'})
             return super().on_cleanup(sm)
 
-    _modcls.update(SMod=SMod, IDLE=IDLE, WARN=WARN, BUSY=BUSY)
+    from frappy.lib.statemachine import Retry
+
+    class SMod2(HasStates, Drivable):
+        """another module class in the same node whose state functions have the SAME NAMES as SMod's but other status
+        decorations (A: WARN 'slow a'); not scripted (A retries for ever)"""
+
+        def read_value(self):
+            return 0.0
+
+        @status_code(WARN, 'slow a')
+        def A(self, sm):
+            return Retry
+
+        @status_code(BUSY, 'other b')
+        def B(self, sm):
+            return Retry
+
+    class SModSub(SMod):
+        """subclass of SMod overriding state A with another decoration"""
+
+        @status_code(BUSY, 'sub a')
+        def A(self, sm):
+            return Retry
+
+    _modcls.update(SMod=SMod, SMod2=SMod2, SModSub=SModSub, IDLE=IDLE, WARN=WARN, BUSY=BUSY)
+    # hand-written from the decorations above: the status a module must report when its machine is started in a state
+    _modcls['OWN'] = {'m': {'A': (int(BUSY), 'state a'), 'B': (int(BUSY), 'B')},
+                      'n': {'A': (int(WARN), 'slow a')}, 'k': {'A': (int(BUSY), 'sub a')}}
     return SMod
 
 
 class ModuleWorld:
-    """one real node with one HasStates module, re-initialised for every execution"""
+    """one real node with three HasStates modules - m (SMod, scripted, the module under operation), n (SMod2) and k
+    (SModSub), whose state functions share names but not status decorations - re-initialised for every execution"""
 
     def __init__(self):
         from vf import nodes
         import logging
-        self.node = nodes.Node({'m': {'cls': module_class()}})
-        self.mod = self.node.secnode.modules['m']
-        for lg in (self.node.log, self.mod.log):
+        module_class()
+        self.node = nodes.Node({'m': {'cls': _modcls['SMod']}, 'n': {'cls': _modcls['SMod2']},
+                                'k': {'cls': _modcls['SModSub']}})
+        self.mods = {name: self.node.secnode.modules[name] for name in 'mnk'}
+        self.mod = self.mods['m']
+        for lg in [self.node.log] + [x.log for x in self.mods.values()]:
             lg.setLevel(logging.CRITICAL)
-        self.saved = {pn: (po.value, po.timestamp, po.readerror) for pn, po in self.mod.parameters.items()}
-        self.cbs = {k: list(v) for k, v in self.mod.paramCallbacks.items()}
+        self.saved = {name: {pn: (po.value, po.timestamp, po.readerror) for pn, po in x.parameters.items()}
+                      for name, x in self.mods.items()}
+        self.cbs = {name: {k: list(v) for k, v in x.paramCallbacks.items()} for name, x in self.mods.items()}
+        # class-level containers of the mixin under test and of the harness classes: a new execution stands for a new
+        # process, so whatever an execution leaves in them is put back to the state after start-up
+        self.class_state = []
+        seen = set()
+        for x in self.mods.values():
+            for klass in type(x).__mro__:
+                if klass in seen or klass.__module__ not in ('frappy.states', __name__):
+                    continue
+                seen.add(klass)
+                for attr, val in vars(klass).items():
+                    if isinstance(val, (dict, list, set)) and not attr.startswith('__'):
+                        self.class_state.append((val, type(val)(val)))
         self.updates = []
         self.calls = []
         self.script = None
         self.nstart = 0
+        self.probed = ()
+        self.probe_result = None
 
     def reset(self, script):
         import threading
         from frappy.modulebase import PollInfo
-        m = self.mod
-        for pn, po in m.parameters.items():
-            po.value, po.timestamp, po.readerror = self.saved[pn]
-        m.paramCallbacks = {k: list(v) for k, v in self.cbs.items()}
-        m.statusMap = {}
-        m.init_state_machine()
-        m.pollInfo = PollInfo(m.pollinterval, threading.Event())
-        m.addCallback('status', self.on_status)
+        for val, saved in self.class_state:
+            if val != saved:
+                if isinstance(val, list):
+                    val[:] = saved
+                else:
+                    val.clear()
+                    val.update(saved)
+        for name, x in self.mods.items():
+            for pn, po in x.parameters.items():
+                po.value, po.timestamp, po.readerror = self.saved[name][pn]
+            x.paramCallbacks = {k: list(v) for k, v in self.cbs[name].items()}
+            x.polledModules.clear()
+            x.initModule()            # the real initialisation (creates the state machine and whatever it caches)
+            x.pollInfo = PollInfo(x.pollinterval, threading.Event())
+        self.mod.addCallback('status', self.on_status)
         self.script = script
         self.nstart = 0
         self.updates = []
+        self.probed = ()
+        self.probe_result = None
         self.node.loghandler.records.clear()
         _WORLD[0] = self
+
+    def probe(self, name):
+        """self-contained use of another module: start its state A, poll once, stop, poll; returns what it reported"""
+        x = self.mods[name]
+        calls, self.calls = self.calls, []
+        try:
+            x.start_machine(x.A)
+            s1 = (int(x.status[0]), x.status[1])
+            x.doPoll()
+            s2 = (int(x.status[0]), x.status[1])
+            x.stop_machine()
+            x.doPoll()
+            s3 = (int(x.status[0]), x.status[1])
+            return name, s1, s2, s3, x._state_machine.is_active
+        finally:
+            self.calls = calls
 
     def on_status(self, value, err=None):
         self.updates.append(tuple(value))
@@ -758,6 +829,10 @@ class ModuleWorld:
                 self.nstart += 1
                 task = ('start', 'B', {'attr': self.nstart}, 'K')
                 m.start_machine(m.B, cleanup=m.K, attr=self.nstart)
+            elif op in ('probeN', 'probeK'):
+                name = op[-1].lower()
+                self.probe_result = self.probe(name)
+                self.probed = tuple(sorted(set(self.probed) | {name}))
             else:
                 raise ValueError(op)
         except Exception as e:   # noqa
@@ -804,8 +879,23 @@ def module_execute(shard, ops, entries, local, world=None):
                 if r.cur is not None:       # documented: nothing happens when the machine is not running
                     r.post(task)
                     stop_seq = len(allcalls)
+        elif op.startswith('probe'):
+            name, s1, s2, s3, active = world.probe_result
+            own = _modcls['OWN'][name]['A']
+            if s1 != own or s2 != own:
+                v = [('own-status-not-reported', f'{op}:{ctx}', f'module {name} started in its state A reported {s1} and, '
+                      f'after a poll, {s2}; its own state function is decorated {own}')]
+            elif active or s3 != (int(_modcls['IDLE']), 'stopped'):
+                v = [('stopped-status-not-reported', f'{op}:{ctx}', f'module {name} after stop + poll: active={active}, '
+                      f'status {s3}')]
         else:
             ref.post(task)
+            if was_running == {False}:      # started from rest: the module must show the status of its OWN state function
+                st = (int(m.status[0]), m.status[1])
+                own = _modcls['OWN']['m'][task[1]]
+                if st != own:
+                    v = [('own-status-not-reported', f'{op}:{ctx}', f'after {op} from rest the status is {st}; the state '
+                          f'function {task[1]} of this module is decorated {own}')]
         if not v:
             v = check_status(world, ref, op, ctx, was_running, nended, stop_seq, allcalls)
         if v and not last:
@@ -825,7 +915,8 @@ def module_execute(shard, ops, entries, local, world=None):
     impl = (getattr(sm.statefunc, '__name__', None), bool(sm.init), getattr(sm.cleanup, '__name__', None), rc, ntc,
             rk(getattr(sm, 'attr', MISSING)), tuple(m.status), tuple(sm.status), tuple(sm.idle_status),
             bool(sm.reset_fast_poll), m.pollInfo.fast_flag,
-            None if stop_seq is None else not any(c['ans'].startswith('final:') for c in allcalls[stop_seq:]))
+            None if stop_seq is None else not any(c['ans'].startswith('final:') for c in allcalls[stop_seq:]),
+            world.probed)
     res.canon = (impl, ref.canon(rk))
     res.local_arity = script.local_arity
     res.local_keys = script.local_keys
@@ -887,6 +978,10 @@ def bounds(tier):
 
 
 MODULE_OPS = ('poll', 'startA', 'startBK', 'stop')
+# use of the other modules of the node (same state names, other status decorations) in between, in any order; only in the
+# profiles with the smallest state graphs (the dimension does not depend on the script profile)
+PROBE_OPS = ('probeN', 'probeK')
+PROBE_PROFILES = ('retry', 'cleanupL')
 
 
 def sm_shards(tier):
@@ -904,7 +999,8 @@ def sm_shard_fn(shard):
 
 def module_shards(tier):
     b = bounds(tier)
-    return [dict(profile=p, maxloops=10, ops=MODULE_OPS, depth=b['mdepth'], budget=b['mbudget'])
+    return [dict(profile=p, maxloops=10, ops=MODULE_OPS + (PROBE_OPS if p in PROBE_PROFILES else ()), depth=b['mdepth'],
+                 budget=b['mbudget'])
             for p in PROFILES]
 
 
